@@ -1,7 +1,7 @@
 import RedbModel.Model.Conc
 import Driver.Util
 /-! Line driver for the `tables`-lock model of property C16:
-`mt forced first=<call> parked-at=<point> second-blocked=<0|1> => savepoint=<ok|err:…>`.
+`mt forced first=<call> parked-at=<point> second-blocked=<0|1> dirtier=<call> => savepoint=<ok|err:…>`.
 One thread is parked at a pause point of `open_table` (set_dirty) or `ephemeral_savepoint` while a
 second thread makes the other call. The model (`Conc.Tables`, where both calls are atomic because
 they run under the transaction's `tables` lock) determines the order in which the two calls take
@@ -12,14 +12,16 @@ open Redb.Conc
 
 def mtStep (req : List String) : String :=
   match req with
-  | ["forced", first, parked, blocked, "=>", res] =>
+  | ["forced", first, parked, blocked, _dirtier, "=>", res] =>
     let inLock : Option Bool :=
       if parked = "parked-at=set_dirty" then some true
       else if parked = "parked-at=ephemeral_savepoint.checked" then some true
       else if parked = "parked-at=ephemeral_savepoint.enter" then some false
       else none
     let firstOp : Option Tables.Op :=
-      if first = "first=open_table" then some .setDirty
+      -- every call that changes the catalog or hands out a table goes through set_dirty
+      if first ∈ ["first=open_table", "first=open_multimap_table", "first=delete_table", "first=rename_table",
+          "first=delete_multimap_table", "first=rename_multimap_table"] then some .setDirty
       else if first = "first=ephemeral_savepoint" then some .ephemeralSavepoint
       else none
     match inLock, firstOp with
